@@ -1,4 +1,5 @@
 from checks.inteval import run_inteval
+from checks.approxeval import run_approxeval
 
 
 def run(ctx):
@@ -7,3 +8,4 @@ def run(ctx):
         "scratch buffers of the evaluator are overwritten with garbage before every call (history independence)",
     ]
     run_inteval(ctx, frame=True)
+    run_approxeval(ctx, frame=True)
